@@ -32,9 +32,38 @@ fn image_meta(p: &CooklangParser, input: &str) -> String {
     }
 }
 
+/// what `parse_with_options` returns with a reference checker and a metadata validator that depend on their arguments only
+fn image_opts(p: &CooklangParser, input: &str) -> String {
+    let opts = cooklang::analysis::ParseOptions {
+        recipe_ref_check: Some(Box::new(|name: &str| if name.contains('e') || name.contains('a') { cooklang::analysis::CheckResult::Error(vec!["no such recipe".into()]) } else { cooklang::analysis::CheckResult::Warning(vec!["unchecked".into()]) })),
+        metadata_validator: Some(Box::new(|k: &serde_yaml::Value, _v: &serde_yaml::Value, _o: &mut cooklang::analysis::CheckOptions| if k.as_str().map_or(false, |k| k.starts_with('z')) { cooklang::analysis::CheckResult::Warning(vec!["z key".into()]) } else { cooklang::analysis::CheckResult::Ok })),
+    };
+    match std::panic::catch_unwind(std::panic::AssertUnwindSafe(|| p.parse_with_options(input, opts))) {
+        Ok(res) => {
+            let json = res.output().map(|r| serde_json::to_string(r).unwrap_or_default()).unwrap_or_default();
+            let all: Vec<String> = res.report().iter().map(|d| format!("{}|{}", r_diag_full(d), d.message)).collect();
+            format!("{}\u{1}{json}\u{1}{}", res.is_valid(), all.join(";"))
+        }
+        Err(_) => "PANIC".into(),
+    }
+}
+
+/// a tracing subscriber that enables every level and target and throws everything away: ambient process state a parse
+/// must not depend on
+struct AllOn;
+impl tracing::Subscriber for AllOn {
+    fn enabled(&self, _: &tracing::Metadata<'_>) -> bool { true }
+    fn new_span(&self, _: &tracing::span::Attributes<'_>) -> tracing::span::Id { tracing::span::Id::from_u64(1) }
+    fn record(&self, _: &tracing::span::Id, _: &tracing::span::Record<'_>) {}
+    fn record_follows_from(&self, _: &tracing::span::Id, _: &tracing::span::Id) {}
+    fn event(&self, _: &tracing::Event<'_>) {}
+    fn enter(&self, _: &tracing::span::Id) {}
+    fn exit(&self, _: &tracing::span::Id) {}
+}
+
 pub fn run(ctx: &mut Ctx) {
     assert_sync::<CooklangParser>();
-    ctx.rule = "a list of inputs (well-formed recipes, structured recipes, soups) is parsed (a) by a fresh parser per input, (b) in random orders with repetitions on one parser, (c) from 2..16 threads sharing one parser (barrier start, shuffled per thread), both converters and several extension sets; the JSON image of the recipe and the ordered diagnostics (with messages) must be identical in all modes; mode (a) is also compared with the model. non-trivial = input with components or diagnostics".into();
+    ctx.rule = "a list of inputs (well-formed recipes, structured recipes, soups) is parsed (a) by a fresh parser per input, (b) in random orders with repetitions on one parser, (c) from 2..16 threads sharing one parser (barrier start, shuffled per thread), (g) with callbacks after failing parses on the thread and under an ambient tracing subscriber, both converters and several extension sets; the JSON image of the recipe and the ordered diagnostics (with messages) must be identical in all modes; mode (a) is also compared with the model. non-trivial = input with components or diagnostics".into();
     let mut rng = Rng::new(ctx.seed ^ 0xC18);
     let rounds = if ctx.thorough { 60 } else { 4 };
     let per = if ctx.thorough { 3000 } else { 500 };
@@ -218,6 +247,37 @@ pub fn run(ctx: &mut Ctx) {
                 }
             }
             ctx.count_n("mode-e-parser-replacements", n_alt as u64);
+        }
+        // (g) ambient state of the thread and the process. (g1) `parse_with_options` with callbacks that depend on their
+        // arguments only, after all the calls above on this thread (many of them ended in parser errors) and after directed
+        // failing parses through each entry point, against the same call on a thread that never parsed anything;
+        // (g2) the same parses while a tracing subscriber that enables every level is the default of the thread, and again
+        // after it is gone
+        {
+            let mut sel: Vec<String> = ["Cover with @@pesto{}.\n", "Use @@./sauces/tomato{1} and @@base{}.\n", "@@stock{2%l}\n\n@&stock{1%l}\n", ">> zkey: 1\n\nServe with @@bread{}.\n", "---\nzz: 1\ntitle: t\n---\n@@dip{} and @salt{}.\n",
+                "Add @salt{1/0%g} and @sugar{2/0%g}.\n\n>> broken line\n\nThen @oil{3/0%ml}.\n", "@a{1/0} @b{2/0}", "@a{1/0}\n\n@b{}{}\n\n@c{2/0}(\n", ">>: x\n\n@@pesto{}\n\n>>: y\n"].iter().map(|s| s.to_string()).collect();
+            let step = (inputs.len() / 40).max(1);
+            sel.extend(inputs.iter().step_by(step).cloned());
+            sel.extend(inputs.iter().filter(|s| s.contains("@@")).take(40).cloned());
+            let reference: Vec<(String, String)> = sel.iter().map(|s| { let (s2, e, c) = (s.clone(), ext_bits, conv);
+                std::thread::spawn(move || { let p = CooklangParser::new(Extensions::from_bits_retain(e), if c == 0 { Converter::empty() } else { Converter::bundled() }); (image_opts(&p, &s2), image(&p, &s2)) }).join().unwrap_or_default() }).collect();
+            let shared = mk();
+            for bad in ["Add @salt{1/0%g}", "@x{1/0} @y{2/0}"] { let _ = image(&shared, bad); let _ = image_opts(&shared, bad); let _ = image_meta(&shared, ">>: x"); }
+            for (s, (want_opts, want)) in sel.iter().zip(reference.iter()) {
+                ctx.eval("", false);
+                let got = image_opts(&shared, s);
+                if &got != want_opts { ctx.oracle_fail(format!("parse_with_options after other calls on the thread: ext={ext_bits} conv={conv} input={s:?}"), format!("result differs from the same call on a thread that never parsed\nfresh thread: {want_opts}\nthis thread: {got}"), "c18:thread-state".into()); }
+                let _ = image(&shared, "@bad{1/0}");
+            }
+            ctx.count_n("mode-g1-parse-with-options", sel.len() as u64);
+            for (s, (want_opts, want)) in sel.iter().zip(reference.iter()) {
+                ctx.eval("", false);
+                let (got, got_opts) = tracing::subscriber::with_default(AllOn, || (image(&shared, s), image_opts(&shared, s)));
+                if &got != want || &got_opts != want_opts { ctx.oracle_fail(format!("parse under a tracing subscriber that enables every level: ext={ext_bits} conv={conv} input={s:?}"), format!("result differs from the parse without a subscriber\nwithout: {want}\nwith: {got}"), "c18:ambient-subscriber".into()); }
+                let after = image(&shared, s);
+                if &after != want { ctx.oracle_fail(format!("parse after a tracing subscriber was installed and removed: ext={ext_bits} conv={conv} input={s:?}"), format!("result differs from the parse before\nbefore: {want}\nafter: {after}"), "c18:ambient-subscriber".into()); }
+            }
+            ctx.count_n("mode-g2-parses-under-subscriber", sel.len() as u64);
         }
         // (d) contention on the converter: few inputs, each dense in look-ups of DIFFERENT short units, many
         // threads hammering one parser (a shared memo/cache inside the converter would tear here)
